@@ -18,10 +18,11 @@ Mags(K) == UNION {{Pow2m1(k), Pow2(k), Pow2p1(k)} : k \in K} \cup {<<1>>, <<2>>,
 Mpints(K) == {BigZero} \cup {BigInt(FALSE, m) : m \in Mags(K)} \cup {BigInt(TRUE, m) : m \in Mags(K)}
 Names == { <<>>, << <<97>> >>, << <<97>>, <<98>> >>, << Str(3), Str(20), <<45>> >>, << Str(255) >>, << Str(130), Str(125) >>, << <<0>>, <<200, 128>> >> }
 
+ArrLen(k) == CASE k = "arr1" -> 1 [] k = "arr4" -> 4 [] k = "arr8" -> 8 [] OTHER -> 16
 BaseQ(k) == CASE k = "byte" -> 7 [] k = "bool" -> TRUE [] k = "u32" -> <<1, 2>> [] k = "u64" -> <<1, 2, 3, 4>>
               [] k = "string" -> Str(3) [] k = "bytes" -> <<1, 2, 3>> [] k = "rest" -> <<9, 8>>
               [] k = "namelist" -> << <<97, 98>>, <<99>> >> [] k = "mpint" -> BigInt(FALSE, <<1, 0>>)
-              [] k = "arr4" -> <<1, 2, 3, 4>> [] OTHER -> [i \in 1..16 |-> i]
+              [] OTHER -> [i \in 1..ArrLen(k) |-> i]
 MenuOf(k, K, big) ==
          CASE k = "byte" -> {0, 1, 127, 128, 255}
            [] k = "bool" -> {TRUE, FALSE}
@@ -32,8 +33,7 @@ MenuOf(k, K, big) ==
            [] k = "rest" -> {<<>>, <<0>>, <<0, 0, 0, 1>>, Bin(5), Bin(256)}
            [] k = "namelist" -> Names
            [] k = "mpint" -> Mpints(K)
-           [] k = "arr4" -> {Zeros(4), Rep(255, 4)}
-           [] OTHER -> {Zeros(16), Rep(255, 16)}
+           [] OTHER -> {Zeros(ArrLen(k)), Rep(255, ArrLen(k))}
 MenuQ(k) == MenuOf(k, Ks, FALSE)
 MenuT(k) == MenuOf(k, KsBig, TRUE)
 
